@@ -1,6 +1,6 @@
 (* C26: Symbol(s) / Keyword(s) succeed exactly when reading s / ":"+s yields that one model;
    String(s, brackets=d) versus the bracket string reading back. *)
-From HyV Require Import Base.Text Gen.LitTables Lit.Strings Lit.StringsSpec Lit.StringsProofs Lit.BracketProofs
+From HyV Require Import Base.Text Gen.LitTables Lit.Strings Lit.StringsSpec Lit.StringsProofs Lit.StringsBracket
   Lit.Numeric Lit.NumericProofs Lit.NumericExt Lit.Ctor.
 From Coq Require Import ZArith Lia.
 
